@@ -65,7 +65,9 @@ def inDomain (f : Format) (t : Ty) (v : Dyn) : Bool :=
   | .bool _ => true
   | .str s => Utf8.valid s || f == .binary
   | .bytes _ => true
-  | .num l => f == .string || f == .binary || JsonWrite.isValidNumber l
+  -- under string the literal travels as a JSON string: it must be well-formed UTF-8 (found by the
+  -- proof of `RowRoundTrip.string_num_not_lossless`); under binary any bytes; else a valid literal
+  | .num l => (f == .string && Utf8.valid l) || f == .binary || JsonWrite.isValidNumber l
   | .time tm =>
     let y := Time.year tm
     0 ≤ y && y ≤ 9999 && tm.off % 60 == 0 && tm.off.natAbs < 86400 &&
